@@ -83,10 +83,14 @@ class Vector:
             # now take each component of vector and assign them to base_scalars, eg x, y, z
             # replace each component of new_scalars with assigned x, y, z, eg r -> x, theta -> y
             # build new vector from these components
-            for i, scalar in enumerate(self.coordinate_system.coord_system.base_scalars()):
-                new_component = 0 if i >= len(self.components) else self.components[i]
-                for j, old_scalar in enumerate(new_scalars):
-                    new_scalars[j] = old_scalar.subs(scalar, new_component)
+            # components can depend on base scalars themselves, so replace all of them at once
+            substitutions = {
+                scalar: (0 if i >= len(self.components) else self.components[i])
+                for i, scalar in enumerate(self.coordinate_system.coord_system.base_scalars())
+            }
+            new_scalars = [
+                old_scalar.subs(substitutions, simultaneous=True) for old_scalar in new_scalars
+            ]
             vector_ = Vector(new_scalars, self.coordinate_system)
         # We do not want to maintain own vector transformation functions, so
         # we convert our vector to SymPy format, transform it and convert back to Vector.
